@@ -92,9 +92,146 @@ pub fn expected(p: &Program) -> Vec<Vec<Paint>> {
     pages
 }
 
+/// Geometry of one painted path as read back: the path-construction operators with their operands,
+/// and the operands of a `cm` issued since the enclosing `q` (if any).
+#[derive(Clone, Debug, PartialEq)]
+pub struct Geom {
+    pub cm: Option<[f64; 6]>,
+    pub segs: Vec<(char, Vec<f64>)>,
+}
+
+/// What the authoring program says the geometry of a painted path is.
+#[derive(Clone, Debug)]
+pub enum WantGeom {
+    /// exactly these construction operators and operands (up to two-decimal rounding)
+    Exact(Geom),
+    /// `Graphics::circle(cx, cy, r)`: a closed sequence of Bezier arcs whose on-curve points lie on the circle
+    Circle { cx: f64, cy: f64, r: f64 },
+}
+
+/// The documented rounding of the writer is two decimals: half a unit in the last place plus float noise.
+const TOL: f64 = 0.0062;
+
+impl WantGeom {
+    pub fn check(&self, got: &Geom) -> Result<(), String> {
+        match self {
+            WantGeom::Exact(w) => {
+                match (&w.cm, &got.cm) {
+                    (Some(a), Some(b)) => {
+                        if a.iter().zip(b.iter()).any(|(x, y)| (x - y).abs() > TOL) {
+                            return Err(format!("authored transform {:?}, read back {:?}", a, b));
+                        }
+                    }
+                    (None, None) => {}
+                    (a, b) => return Err(format!("authored transform {:?}, read back {:?}", a, b)),
+                }
+                if w.segs.len() != got.segs.len() {
+                    return Err(format!("authored path {:?}, read back {:?}", w.segs, got.segs));
+                }
+                for (a, b) in w.segs.iter().zip(got.segs.iter()) {
+                    if a.0 != b.0 || a.1.len() != b.1.len() || a.1.iter().zip(b.1.iter()).any(|(x, y)| (x - y).abs() > TOL) {
+                        return Err(format!("authored segment {:?}, read back {:?}", a, b));
+                    }
+                }
+                Ok(())
+            }
+            WantGeom::Circle { cx, cy, r } => {
+                let mut n_on = 0;
+                for (i, (k, v)) in got.segs.iter().enumerate() {
+                    let pt = match (*k, v.len()) {
+                        ('m', 2) if i == 0 => [v[0], v[1]],
+                        ('c', 6) if i > 0 => [v[4], v[5]],
+                        ('h', 0) if i + 1 == got.segs.len() => continue,
+                        _ => return Err(format!("circle({}, {}, {}) read back as {:?}", cx, cy, r, got.segs)),
+                    };
+                    let d = ((pt[0] - cx).powi(2) + (pt[1] - cy).powi(2)).sqrt();
+                    if (d - r).abs() > 0.02 {
+                        return Err(format!("circle({}, {}, {}): on-curve point {:?} read back at distance {:.4} from the centre", cx, cy, r, pt, d));
+                    }
+                    n_on += 1;
+                }
+                if n_on < 4 {
+                    return Err(format!("circle({}, {}, {}) read back with {} on-curve points: {:?}", cx, cy, r, n_on, got.segs));
+                }
+                // control points stay inside the circumscribed square (kappa < 1)
+                for (k, v) in &got.segs {
+                    if *k == 'c' {
+                        for q in [[v[0], v[1]], [v[2], v[3]]] {
+                            if (q[0] - cx).abs() > r + 0.02 || (q[1] - cy).abs() > r + 0.02 {
+                                return Err(format!("circle({}, {}, {}): control point {:?} read back outside the bounding square", cx, cy, r, q));
+                            }
+                        }
+                    }
+                }
+                Ok(())
+            }
+        }
+    }
+}
+
+fn exact(cm: Option<[f64; 6]>, segs: Vec<(char, Vec<f64>)>) -> WantGeom {
+    WantGeom::Exact(Geom { cm, segs })
+}
+
+/// Geometry the program's painting calls must read back with, page by page, in call order (parallel
+/// to `expected`).
+pub fn expected_geom(p: &Program) -> Vec<Vec<WantGeom>> {
+    let mut pages: Vec<Vec<WantGeom>> = vec![];
+    for op in &p.ops {
+        if let DocOp::NewPage { .. } = op {
+            pages.push(vec![]);
+            continue;
+        }
+        let cur = match pages.last_mut() {
+            Some(c) => c,
+            None => continue,
+        };
+        match op {
+            DocOp::Rect { x, y, w, h, .. } => cur.push(exact(None, vec![('r', vec![*x, *y, *w, *h])])),
+            DocOp::Path { pts, curve, close, .. } => {
+                let mut segs = vec![('m', vec![pts[0][0], pts[0][1]])];
+                if *curve {
+                    let mut i = 1;
+                    while i + 2 < pts.len() {
+                        segs.push(('c', vec![pts[i][0], pts[i][1], pts[i + 1][0], pts[i + 1][1], pts[i + 2][0], pts[i + 2][1]]));
+                        i += 3;
+                    }
+                } else {
+                    for q in &pts[1..] {
+                        segs.push(('l', vec![q[0], q[1]]));
+                    }
+                }
+                if *close {
+                    segs.push(('h', vec![]));
+                }
+                cur.push(exact(None, segs));
+            }
+            DocOp::StrokeOnly { pts } => {
+                let mut segs = vec![('m', vec![pts[0][0], pts[0][1]])];
+                for q in &pts[1..] {
+                    segs.push(('l', vec![q[0], q[1]]));
+                }
+                cur.push(exact(None, segs));
+            }
+            DocOp::Transformed { m, x, y, w, h } => cur.push(exact(Some(*m), vec![('r', vec![*x, *y, *w, *h])])),
+            DocOp::Circle { cx, cy, r, .. } => cur.push(WantGeom::Circle { cx: *cx, cy: *cy, r: *r }),
+            DocOp::Opacity { .. } => cur.push(exact(None, vec![('r', vec![10.0, 10.0, 20.0, 20.0])])),
+            _ => {}
+        }
+    }
+    pages
+}
+
 /// Interpret a content stream: effective (fill, stroke, width) at every path-painting operator.
 pub fn interpret(content: &[u8]) -> Result<Vec<Paint>, String> {
+    interpret_full(content).map(|v| v.into_iter().map(|(p, _)| p).collect())
+}
+
+/// As `interpret`, with the geometry of each painted path.
+pub fn interpret_full(content: &[u8]) -> Result<Vec<(Paint, Geom)>, String> {
     let mut out = vec![];
+    let mut segs: Vec<(char, Vec<f64>)> = vec![];
+    let mut cm: Option<[f64; 6]> = None;
     let mut st = St { fill: Col::gray(0.0), stroke: Col::gray(0.0), width: 1.0 };
     let mut stack: Vec<St> = vec![];
     let mut operands: Vec<f64> = vec![];
@@ -113,12 +250,25 @@ pub fn interpret(content: &[u8]) -> Result<Vec<Paint>, String> {
             let op = &content[s..p.i];
             let n = operands.len();
             match op {
-                b"q" => stack.push(st),
+                b"q" => {
+                    stack.push(st);
+                    cm = None;
+                }
                 b"Q" => {
                     if let Some(s) = stack.pop() {
                         st = s;
                     }
+                    cm = None;
                 }
+                b"cm" if n >= 6 => cm = Some([operands[n - 6], operands[n - 5], operands[n - 4], operands[n - 3], operands[n - 2], operands[n - 1]]),
+                b"m" => segs.push(('m', operands.clone())),
+                b"l" => segs.push(('l', operands.clone())),
+                b"c" => segs.push(('c', operands.clone())),
+                b"v" => segs.push(('v', operands.clone())),
+                b"y" => segs.push(('y', operands.clone())),
+                b"re" => segs.push(('r', operands.clone())),
+                b"h" => segs.push(('h', vec![])),
+                b"n" => segs.clear(),
                 b"g" if n >= 1 => st.fill = Col::gray(operands[n - 1]),
                 b"G" if n >= 1 => st.stroke = Col::gray(operands[n - 1]),
                 b"rg" if n >= 3 => st.fill = Col::rgb(operands[n - 3], operands[n - 2], operands[n - 1]),
@@ -126,9 +276,9 @@ pub fn interpret(content: &[u8]) -> Result<Vec<Paint>, String> {
                 b"k" if n >= 4 => st.fill = Col::cmyk(operands[n - 4], operands[n - 3], operands[n - 2], operands[n - 1]),
                 b"K" if n >= 4 => st.stroke = Col::cmyk(operands[n - 4], operands[n - 3], operands[n - 2], operands[n - 1]),
                 b"w" if n >= 1 => st.width = operands[n - 1],
-                b"f" | b"F" | b"f*" => out.push(Paint { kind: 'f', fill: st.fill, stroke: st.stroke, width: st.width }),
-                b"S" | b"s" => out.push(Paint { kind: 'S', fill: st.fill, stroke: st.stroke, width: st.width }),
-                b"B" | b"B*" | b"b" | b"b*" => out.push(Paint { kind: 'B', fill: st.fill, stroke: st.stroke, width: st.width }),
+                b"f" | b"F" | b"f*" => out.push((Paint { kind: 'f', fill: st.fill, stroke: st.stroke, width: st.width }, Geom { cm, segs: std::mem::take(&mut segs) })),
+                b"S" | b"s" => out.push((Paint { kind: 'S', fill: st.fill, stroke: st.stroke, width: st.width }, Geom { cm, segs: std::mem::take(&mut segs) })),
+                b"B" | b"B*" | b"b" | b"b*" => out.push((Paint { kind: 'B', fill: st.fill, stroke: st.stroke, width: st.width }, Geom { cm, segs: std::mem::take(&mut segs) })),
                 b"true" | b"false" | b"null" => {}
                 _ => {}
             }
